@@ -65,6 +65,19 @@ ExpectedPath(r) ==
          IF r.type = "MARKET" THEN "/api/v2/" \o r.action \o "/market/" \o r.lpair \o "/"
          ELSE IF r.type = "INSTANT" THEN "/api/v2/" \o r.action \o "/instant/" \o r.lpair \o "/"
          ELSE "/api/v2/" \o r.action \o "/" \o r.lpair \o "/"
+\* options left unset are omitted: the parameter names on the wire are exactly the mandatory ones, the ones the caller
+\* supplied, and the documented companions / defaults (time in force of limit-type orders, the time in force that goes
+\* with a stop limit price, the margin account flags, Bitstamp's amount_in_counter of instant orders)
+ToSetW(sq) == {sq[k] : k \in DOMAIN sq}
+ExpectedNames(r) ==
+  LET given == ToSetW(r.given) IN
+  IF r.exchange = "bitstamp" THEN given \cup (IF r.type = "INSTANT" THEN {"amount_in_counter"} ELSE {})
+  ELSE {"symbol", "side", "timestamp", "signature"} \cup given
+       \cup (IF r.type # "OCO" THEN {"type"} ELSE {})
+       \cup (IF r.type \in {"LIMIT", "STOP_LOSS_LIMIT"} THEN {"timeInForce"} ELSE {})
+       \cup (IF "stopLimitPrice" \in given THEN {"stopLimitTimeInForce"} ELSE {})
+       \cup (IF r.exchange = "binance_margin" THEN {"isIsolated", "sideEffectType"} ELSE {})
+C17_OmitUnset(r) == r.unexpected = <<>> /\ ToSetW(r.got_names) = ExpectedNames(r)
 C17_Endpoint(r) ==
   /\ r.got_path = ExpectedPath(r)
   /\ (r.exchange # "bitstamp" => r.got_symbol = r.upair /\ r.got_side = r.side /\ r.got_type = r.wire_type)
